@@ -48,6 +48,7 @@ type Ver struct {
 	Lat     float64 `json:"lat,omitempty"`
 	Lon     float64 `json:"lon,omitempty"`
 	Rev     bool    `json:"rev,omitempty"` // way child: node list reversed with respect to the canonical one
+	Zone    int     `json:"z,omitempty"`   // index into Zones: the Location the times of this version are expressed in
 }
 
 // Child is the whole history of one child element.
@@ -87,6 +88,7 @@ type PVer struct {
 	Lag     int64 `json:"lag,omitempty"`
 	CS      int64 `json:"cs"`
 	Refs    []Ref `json:"refs"`
+	Zone    int   `json:"z,omitempty"`
 }
 
 // H is one history: the input of one annotate.Ways / annotate.Relations call.
@@ -116,19 +118,47 @@ const (
 
 func tm(sec int64) time.Time { return time.Unix(sec, 0).UTC() }
 
-func (h *H) stamps(sec, lag int64) (ts time.Time, committed *time.Time) {
+// Zones are the Locations in which generated times are expressed. The instant is what
+// counts; the same instant in two Locations gives two time.Time values that differ as
+// structs (== is false) but are Equal. Index 0 is UTC. The list holds fixed zones east and
+// west with odd minutes, two Locations with the same offset but different names, and a
+// Location with offset zero that is not time.UTC.
+var Zones = []*time.Location{
+	time.UTC,
+	time.FixedZone("", 2*3600),
+	time.FixedZone("CEST", 2*3600),
+	time.FixedZone("", -(5*3600 + 30*60)),
+	time.FixedZone("Z0", 0),
+	time.FixedZone("", 9*3600+45*60),
+	time.Local,
+}
+
+// tmz is the instant sec expressed in zone z; the timestamp and the commit time of one
+// version use neighbouring zones, so that they differ as well.
+func tmz(sec int64, z int) time.Time {
+	if z <= 0 {
+		return tm(sec)
+	}
+	return time.Unix(sec, 0).In(Zones[z%len(Zones)])
+}
+
+func (h *H) stamps(sec, lag int64, z int) (ts time.Time, committed *time.Time) {
 	if h.Regime == Commit {
 		if h.Mixed && sec < h.MixSec {
-			return tm(sec), nil
+			return tmz(sec, z), nil
 		}
-		c := tm(sec)
+		c := tmz(sec, z)
 		t := sec - lag
 		if min := osm.CommitInfoStart.Unix(); t < min && !h.Mixed {
 			t = min
 		}
-		return tm(t), &c
+		zt := z
+		if z > 0 {
+			zt = z + 1
+		}
+		return tmz(t, zt), &c
 	}
-	return tm(sec), nil
+	return tmz(sec, z), nil
 }
 
 func preVersion(j int) int { return PreVersion + j }
@@ -137,7 +167,7 @@ func preVersion(j int) int { return PreVersion + j }
 func (h *H) BuildWays() osm.Ways {
 	ws := make(osm.Ways, 0, len(h.Parents))
 	for _, p := range h.Parents {
-		ts, com := h.stamps(p.Sec, p.Lag)
+		ts, com := h.stamps(p.Sec, p.Lag, p.Zone)
 		w := &osm.Way{ID: 4242, Version: p.Version, Visible: p.Visible, Timestamp: ts, Committed: com,
 			ChangesetID: osm.ChangesetID(p.CS), User: "u", UserID: 5, Tags: osm.Tags{{Key: "highway", Value: "path"}}}
 		for j, r := range p.Refs {
@@ -156,7 +186,7 @@ func (h *H) BuildWays() osm.Ways {
 func (h *H) BuildRelations() osm.Relations {
 	rs := make(osm.Relations, 0, len(h.Parents))
 	for _, p := range h.Parents {
-		ts, com := h.stamps(p.Sec, p.Lag)
+		ts, com := h.stamps(p.Sec, p.Lag, p.Zone)
 		r := &osm.Relation{ID: 4343, Version: p.Version, Visible: p.Visible, Timestamp: ts, Committed: com,
 			ChangesetID: osm.ChangesetID(p.CS), User: "u", UserID: 5, Tags: osm.Tags{{Key: "name", Value: "x"}}}
 		if h.Polygon {
@@ -274,7 +304,7 @@ func (d *DS) NodeHistory(_ context.Context, id osm.NodeID) (osm.Nodes, error) {
 	out := osm.Nodes{}
 	for _, k := range order {
 		v := c.Vers[k]
-		ts, com := d.h.stamps(v.Sec, v.Lag)
+		ts, com := d.h.stamps(v.Sec, v.Lag, v.Zone)
 		out = append(out, &osm.Node{ID: id, Version: v.Version, Visible: v.Visible, Timestamp: ts, Committed: com,
 			ChangesetID: osm.ChangesetID(v.CS), Lat: v.Lat, Lon: v.Lon, User: "n", UserID: 9})
 	}
@@ -290,7 +320,7 @@ func (d *DS) WayHistory(_ context.Context, id osm.WayID) (osm.Ways, error) {
 	out := osm.Ways{}
 	for _, k := range order {
 		v := c.Vers[k]
-		ts, com := d.h.stamps(v.Sec, v.Lag)
+		ts, com := d.h.stamps(v.Sec, v.Lag, v.Zone)
 		w := &osm.Way{ID: id, Version: v.Version, Visible: v.Visible, Timestamp: ts, Committed: com,
 			ChangesetID: osm.ChangesetID(v.CS), User: "w", UserID: 9}
 		// a short open line with annotated nodes; Rev flips it (the library derives Update.Reverse from it)
@@ -320,7 +350,7 @@ func (d *DS) RelationHistory(_ context.Context, id osm.RelationID) (osm.Relation
 	out := osm.Relations{}
 	for _, k := range order {
 		v := c.Vers[k]
-		ts, com := d.h.stamps(v.Sec, v.Lag)
+		ts, com := d.h.stamps(v.Sec, v.Lag, v.Zone)
 		out = append(out, &osm.Relation{ID: id, Version: v.Version, Visible: v.Visible, Timestamp: ts, Committed: com,
 			ChangesetID: osm.ChangesetID(v.CS), User: "r", UserID: 9})
 	}
@@ -479,6 +509,12 @@ func (h *H) Features() []string {
 			}
 			if k > 0 && c.Vers[k-1].Sec == v.Sec {
 				set["samesec"] = true
+				if c.Vers[k-1].Zone != v.Zone {
+					set["samesec-zones"] = true
+				}
+			}
+			if v.Zone != 0 {
+				set["zones"] = true
 			}
 			for _, p := range h.Parents {
 				used := false
